@@ -138,6 +138,10 @@ def check(pm: ProgramModel, ctx: Ctx) -> None:
                      "number-like"):
             validate(ctx, pm, writer, f"{P}-ONEENC", f"name:{cls_}", name_model(mb, NAME_CLASSES[cls_]),
                      f"feature named {NAME_CLASSES[cls_]!r}", fragment=(writer == "SPLOTWriter"))
+        for cls_ in ("space", "dot-inside", "apostrophes", "opword"):
+            validate(ctx, pm, writer, f"{P}-ONEENC", f"root-name-in-constraint:{cls_}",
+                     name_model(mb, NAME_CLASSES[cls_], in_ctc=True, as_root=True),
+                     f"root named {NAME_CLASSES[cls_]!r} and used in a constraint", fragment=(writer == "SPLOTWriter"))
         from ..codec import export_interactions
         groups: dict[str, list[Any]] = {}
         plain_ops = [op_ for op_ in BINARY_LOGICAL if writer != "SPLOTWriter" or op_ not in ("XOR", "EQUIVALENCE")]
